@@ -525,6 +525,12 @@ def main_check(check: Check, tier: str, seed: int, replay: str | None, as_json: 
         "engine": check.engine,
         "budget": cfg,
     }
+    logical = {k: v for k, v in sorted(agg["stats"].items()) if k in (
+        "batches", "calsim-batches", "scheduler_steps", "steps", "line_preemption_points", "crash-states", "trace-operations", "cases",
+        "sample-calls", "cuttings-executed", "faulted-runs", "learn-steps", "policy-calls", "reward-observations", "calibrate-calls",
+        "executions", "sessions", "pb:schedules", "ioerror@save", "restores-performed", "restores-compared")}
+    cov["simulated_time"] = {"unit": "logical steps (black-it has no timers, time-outs or clocks that influence behaviour; the wall clock seam only "
+                                     "feeds printed elapsed times and is jumped forwards/backwards in C01)", "covered": logical}
     cov.update(check.summary_extra(agg))
     evidence = {
         "property_id": pid, "tier": tier, "seed": int(seed), "level": check.level, "coverage": cov,
